@@ -118,7 +118,7 @@ class KernelTranslator:
         self.src = open(self.path).read()
         self.aliases = import_aliases(self.tree)
         self.funcs = {n.name: n for n in self.tree.body if isinstance(n, ast.FunctionDef)}
-        if funcname not in self.funcs:
+        if funcname not in self.funcs and not getattr(self, "classname", None):
             raise TranslateError("%s: function %s not found" % (self.path, funcname))
         self.lets = []
         self.counter = {}
@@ -753,3 +753,203 @@ class KernelTranslator:
             "outputs": [[self.pyname(nm), t] for nm, t in fields],
         }
         return "\n".join(lines) + "\n", meta
+
+
+# ---------------------------------------------------------------------------------------------
+# component adaption methods (class methods that update pit columns row by row)
+# ---------------------------------------------------------------------------------------------
+class ComponentTranslator(KernelTranslator):
+    """per-row view of a component class method such as `HeatConsumer.adaption_before_derivatives_thermal`:
+
+        hc_pit = branch_pit[f:t, :]                     -> the component's rows of the branch pit (b)
+        consumer_array[:, cls.COL] / [mask, cls.COL]    -> parameter c_COL (the component's own array)
+        cls.CONST                                       -> the integer class attribute
+        cp = get_branch_cp(...)                         -> parameter cp (property evaluation, modelled separately)
+        from_nodes = get_from_nodes_corrected(pit)      -> inlet node: nt if b.FROM_NODE_T_SWITCHED else nf
+        pit[mask, COL] = e                              -> output COL := sel mask e (current value of COL)
+        if np.any(mask): body                           -> body   (masked updates are no-ops on rows outside the mask);
+                                                           an `elif` / `else` on such a guard couples rows and is rejected
+
+    Outputs are the written pit columns, in order of first write."""
+
+    PARAM_CALLS = {"get_branch_cp": "cp", "get_branch_real_density": "rho", "get_branch_real_eta": "eta"}
+    DROP = ("cls", "net", "branch_pit_old", "node_pit_old", "idx_lookups", "options")
+
+    def __init__(self, relpath, classname, funcname, lean_name, **kw):
+        kw.setdefault("drop_params", self.DROP)
+        self.classname = classname
+        tree, path = read_module(relpath)
+        cls = next((n for n in tree.body if isinstance(n, ast.ClassDef) and n.name == classname), None)
+        if cls is None:
+            raise TranslateError("%s: class %s not found" % (path, classname))
+        self.class_consts = {}
+        for st in cls.body:
+            if isinstance(st, ast.Assign) and len(st.targets) == 1 and isinstance(st.targets[0], ast.Name) \
+                    and isinstance(st.value, ast.Constant) and isinstance(st.value.value, int):
+                self.class_consts[st.targets[0].id] = st.value.value
+        super().__init__(relpath, funcname, lean_name, **{k: v for k, v in kw.items()})
+        self.funcs = dict(self.funcs)
+        meth = next((n for n in cls.body if isinstance(n, ast.FunctionDef) and n.name == funcname), None)
+        if meth is None:
+            raise TranslateError("%s: %s.%s not found" % (path, classname, funcname))
+        self.funcs[funcname] = meth
+        self.written = {}           # column -> Val (current value)
+        self.write_order = []
+        self.comp_params = set()
+
+    # the base class looks the function up in self.funcs at construction time; allow methods
+    def _method_ok(self):
+        return True
+
+    def expr(self, node, env):
+        if isinstance(node, ast.Attribute) and isinstance(node.value, ast.Name) and node.value.id == "cls":
+            if node.attr in self.class_consts:
+                return Val("const", pyconst=self.class_consts[node.attr])
+            raise self.err(node, "cls.%s is not an integer class attribute" % node.attr)
+        if isinstance(node, ast.Name) and node.id not in env and node.id in self.aliases:
+            mod, orig = self.aliases[node.id]
+            if mod.endswith("idx_branch") or mod.endswith("idx_node"):
+                # a type code (node / branch kind) used as a value, not as a column
+                consts = dict(module_int_constants("idx_branch.py" if mod.endswith("idx_branch") else "idx_node.py"))
+                if orig in consts:
+                    return Val("const", pyconst=consts[orig])
+        return super().expr(node, env)
+
+    def call(self, node, env):
+        name = self.callname(node.func)
+        if name in self.PARAM_CALLS:
+            if set(self.written) & {"TOUTINIT", "FROM_NODE", "TO_NODE", "FROM_NODE_T_SWITCHED"}:
+                raise self.err(node, "%s evaluated after a write to a column it reads" % name)
+            p = self.PARAM_CALLS[name]
+            if p not in [n for n, _ in self.extra_params]:
+                self.extra_params.append((p, "α"))
+            return Val("num", p)
+        if name == "get_from_nodes_corrected":
+            return Val("idx_from_corr")
+        if name == "get_to_nodes_corrected":
+            return Val("idx_to_corr")
+        if name == "get_component_array":
+            return Val("comp")
+        if name == ".astype" and isinstance(node.func, ast.Attribute) and node.args and "bool" in ast.dump(node.args[0]):
+            v = self.expr(node.func.value, env)
+            if v.kind == "num":
+                return Val("bool", "(neq %s (ofN 0))" % v.lean)
+            return v
+        return super().call(node, env)
+
+    def subscript(self, node, env):
+        base, sl = node.value, node.slice
+        if isinstance(base, ast.Name) and base.id in env:
+            b = env[base.id]
+            if b.kind == "comp":
+                if isinstance(sl, ast.Tuple) and len(sl.elts) == 2:
+                    c = sl.elts[1]
+                    if isinstance(c, ast.Attribute) and isinstance(c.value, ast.Name) and c.value.id == "cls":
+                        p = "c_" + c.attr
+                        if p not in self.comp_params:
+                            self.comp_params.add(p)
+                            self.extra_params.append((p, "α"))
+                        return Val("num", p)
+                raise self.err(node, "unsupported read of the component array")
+            if b.kind in ("pit_b", "pit_n"):
+                # pit[f:t, :]  |  pit[mask]  : a row subset of the same pit
+                if isinstance(sl, ast.Tuple) and len(sl.elts) == 2 and all(isinstance(e, ast.Slice) for e in sl.elts):
+                    return b
+                if not isinstance(sl, ast.Tuple):
+                    s = self.expr(sl, env) if not isinstance(sl, ast.Slice) else Val("idx_self")
+                    if s.kind in ("bool", "idx_self", "const"):
+                        return b
+                if isinstance(sl, ast.Tuple) and len(sl.elts) == 2 and b.kind == "pit_n":
+                    r = self.expr(sl.elts[0], env) if not isinstance(sl.elts[0], ast.Slice) else Val("idx_self")
+                    if r.kind in ("idx_from_corr", "idx_to_corr"):
+                        c = self.colname(sl.elts[1])
+                        self.uses_rows.add("b"); self.uses_rows.add("nf"); self.uses_rows.add("nt")
+                        sw = "(neq b.FROM_NODE_T_SWITCHED (ofN 0))"
+                        a, o = ("nt", "nf") if r.kind == "idx_from_corr" else ("nf", "nt")
+                        return Val("num", "(sel %s %s.%s %s.%s)" % (sw, a, c, o, c))
+        return super().subscript(node, env)
+
+    def col(self, pit, who, colnode, ctx):
+        c = self.colname(colnode)
+        if pit.kind == "pit_b" and c in self.written:
+            return self.written[c]
+        return super().col(pit, who, colnode, ctx)
+
+    def assign_target(self, tgt, val, env, node, aug=None):
+        if isinstance(tgt, ast.Subscript) and isinstance(tgt.value, ast.Name) and tgt.value.id in env \
+                and env[tgt.value.id].kind == "pit_b":
+            sl = tgt.slice
+            if not (isinstance(sl, ast.Tuple) and len(sl.elts) == 2):
+                raise self.err(node, "unsupported pit write")
+            c = self.colname(sl.elts[1])
+            self.uses_rows.add("b")
+            old = self.written.get(c, Val("num", "b.%s" % c))
+            if aug is not None:
+                val = self.combine(old, val, aug, node)
+            r = sl.elts[0]
+            s = Val("idx_self") if isinstance(r, ast.Slice) else self.expr(r, env)
+            if val.kind == "err":
+                raise TranslateError(val.msg)
+            if s.kind == "idx_self":
+                new = Val("num", self.num(val, node))
+            elif s.kind == "bool":
+                new = Val("num", "(sel %s %s %s)" % (s.lean, self.num(val, node), self.num(old, node)))
+            else:
+                raise self.err(node, "unsupported row selector in pit write")
+            if c not in self.written:
+                self.write_order.append(c)
+            self.written[c] = self.emit("w_" + c, new)
+            return
+        if isinstance(tgt, ast.Name) and isinstance(node, ast.Assign) and isinstance(node.value, ast.Subscript):
+            # alias of a pit row subset
+            v = val
+            if v.kind in ("pit_b", "pit_n", "comp", "idx_from_corr", "idx_to_corr"):
+                env[tgt.id] = v
+                return
+        if isinstance(tgt, ast.Name) and val.kind in ("comp", "idx_from_corr", "idx_to_corr", "pit_b", "pit_n"):
+            env[tgt.id] = val
+            return
+        return super().assign_target(tgt, val, env, node, aug)
+
+    def stmt(self, st, env):
+        if isinstance(st, ast.If) and self.is_any_guard(st.test) and st.orelse:
+            raise self.err(st, "`elif`/`else` on a whole-array guard couples the rows of the component")
+        if isinstance(st, ast.Assign) and len(st.targets) == 1 and isinstance(st.targets[0], ast.Name):
+            # X = <branch pit alias>[:, FROM_NODE | TO_NODE].astype(int)
+            v = st.value
+            if isinstance(v, ast.Call) and isinstance(v.func, ast.Attribute) and v.func.attr == "astype":
+                v = v.func.value
+            if isinstance(v, ast.Subscript) and isinstance(v.value, ast.Name) and v.value.id in env \
+                    and env[v.value.id].kind == "pit_b" and isinstance(v.slice, ast.Tuple) and len(v.slice.elts) == 2 \
+                    and isinstance(v.slice.elts[0], ast.Slice) and isinstance(v.slice.elts[1], ast.Name):
+                try:
+                    c = self.colname(v.slice.elts[1])
+                except TranslateError:
+                    c = None
+                if c in ("FROM_NODE", "TO_NODE"):
+                    env[st.targets[0].id] = Val("idx_from" if c == "FROM_NODE" else "idx_to")
+                    return None
+        return super().stmt(st, env)
+
+    def translate(self):
+        f = self.funcs[self.funcname]
+        env = {}
+        for a in f.args.args:
+            p = a.arg
+            if p in self.drop_params:
+                continue
+            if p == "branch_pit":
+                env[p] = Val("pit_b")
+            elif p == "node_pit":
+                env[p] = Val("pit_n")
+            else:
+                raise TranslateError("%s: %s.%s: unexpected parameter %s" % (self.path, self.classname, self.funcname, p))
+        self.loops_seen = 0
+        for st in f.body:
+            r = self.stmt(st, env)
+            if r is not None:
+                raise self.err(st, "return in a component adaption method")
+        if not self.write_order:
+            raise TranslateError("%s: %s.%s writes no pit column" % (self.path, self.classname, self.funcname))
+        outs = [(c, self.written[c]) for c in self.write_order]
+        return self.render(outs)
